@@ -21,17 +21,7 @@ from checks import eval_common as ec
 from checks import c06, c03, c08
 
 
-def set_debug(on):
-    lg = logging.getLogger('oslo_policy.policy')
-    if on:
-        logging.disable(logging.NOTSET)
-        lg.setLevel(logging.DEBUG)
-        if not lg.handlers:
-            lg.addHandler(logging.NullHandler())
-        lg.propagate = False
-    else:
-        lg.setLevel(logging.WARNING)
-        logging.disable(logging.CRITICAL)
+from checks.eval_common import set_debug  # noqa: E402
 
 
 TARGETS = [{}, {'project_id': 'p1', 'k': 'v'}, {'password': 'pw1', 'target.secret.creator_id': 'u9', 'auth_token': 'tok'}, {'nested': {'a': [1, {'b': None}]}, 'password': 'secret'},
